@@ -88,14 +88,17 @@ def cases(seed):
         out.append(("hdr_keywords_%d" % v, base_content(), dict(klp=v, fbk=(v * 7) & 0xFFFF, fcp=v ^ 0x3039), "key-label words %d" % v))
     # float patterns: placed in x/y/z/residual, analog samples, float parameters and event times
     pats = float_patterns(seed)
-    per = 60
+    per = 40
     for k in range(0, len(pats), per):
         chunk = pats[k:k + per]
         while len(chunk) < per:
             chunk.append(chunk[-1])
-        pts = [tuple(chunk[4 * i:4 * i + 4]) for i in range(10)]          # 40 patterns in points
-        an = [[chunk[40 + 2 * s], chunk[41 + 2 * s]] for s in range(5)]     # 10 in analog samples
-        ev = dict(n=10, times=(chunk[50:60] + [0] * 8), disp=[0] * 18, labels=[b"F\0\0\0"] * 18)
-        fp = dict(gid=3, name=b"FLOATS", type=4, dims=[6, 10], values=chunk)
-        out.append(("floats_%04d" % (k // per), base_content(npts=10, nch=2, sub=5, nframes=1, frames=[(pts, an)], events=ev, extra_params=[fp]), {}, "60 float patterns"))
+        # the SAME 40 patterns in every kind of float position: x/y/z/residual, analog samples, a float parameter; 18 of them as event times
+        pts = [tuple(chunk[4 * i:4 * i + 4]) for i in range(10)]
+        an = [chunk[8 * s:8 * s + 8] for s in range(5)]
+        rot = ((k // per) * 18) % per
+        times = [(chunk + chunk)[rot + i] for i in range(18)]
+        ev = dict(n=18, times=times, disp=[0] * 18, labels=[b"F\0\0\0"] * 18)
+        fp = dict(gid=3, name=b"FLOATS", type=4, dims=[8, 5], values=chunk)
+        out.append(("floats_%04d" % (k // per), base_content(npts=10, nch=8, sub=5, nframes=1, frames=[(pts, an)], events=ev, extra_params=[fp]), {}, "40 float patterns in every float position"))
     return out
